@@ -3,6 +3,7 @@ import MesonModel.Rewrite.Splice
 import MesonModel.Rewrite.StrLit
 import MesonModel.Rewrite.Compare
 import MesonModel.Rewrite.Parse
+import MesonModel.Rewrite.ListEdit
 /-
 driver commands of area `rewrite` (C17).
 
@@ -173,6 +174,9 @@ def handle (cmd : String) (fs : List String) : String :=
     match decodeTree a, decodeTree b with
     | some x, some y => boolStr (sameExcept (decodeStrList u) (decodeStrList cf) (decodeStrList keys) x y)
     | _, _ => "bad-tree"
+  | "rmeq", [vals, l] => encodeStrList (removeEqual (decodeStrList vals) (decodeStrList l))
+  | "addv", [vals, l] => encodeStrList (addValues (decodeStrList vals) (decodeStrList l))
+  | "dodel", [keys, l] => encodeStrList (defaultOptionsDelete (decodeStrList keys) (decodeStrList l))
   | "erase", [t] => withTree t (fun e => encodeTree e.erase)
   | "reparse", [t] =>
     -- parse (own token-level parser) the text the printer produces for `t`; answer the erased tree
